@@ -8,9 +8,9 @@
 // History:
 //   1. parent: open store on <dir>/state.json; set k1,k2; flush(); destroy
 //      -> file holds {k1,k2} durably (checked by re-reading the file).
-//   2. child (fork): open the same file (loads k1,k2); set("k3","v3");
-//      lower RLIMIT_FSIZE to 0 and ignore SIGXFSZ, so that open+truncate of a
-//      regular file still succeeds but every write to it fails; flush();
+//   2. child (fork): open the same file (loads k1,k2); lower RLIMIT_FSIZE to 0
+//      and ignore SIGXFSZ, so that open+truncate of a regular file still
+//      succeeds but every write to it fails; set("k3","v3"); flush();
 //      _exit() without running destructors.
 //      == the process crashed between the truncation and the write.
 //   3. parent: open a fresh JsonFileStore on the file: k1 and k2 must still be there
@@ -50,9 +50,12 @@ static int cleanup(const fs::path &dir, int rc)
 int main()
 {
   iora::core::Logger::setLevel(iora::core::Logger::Level::Fatal); // keep stdout to one line
-  // Only explicit flush()/destructor write the file; the shared background
-  // flush thread must not fire during the replay.
-  JsonFileStore::setFlushInterval(std::chrono::hours(1));
+  // Short background-flush interval: ~JsonFileStore() can miss its own wakeup
+  // of the flush thread (notify without the cv mutex) and then blocks for one
+  // interval. A background flush firing during the replay is harmless: in the
+  // parent nothing is dirty after flush(), in the child the write limit is in
+  // force before the store becomes dirty.
+  JsonFileStore::setFlushInterval(std::chrono::milliseconds(200));
 
   char tmpl[] = "/tmp/st-jfs-XXXXXX";
   if (!mkdtemp(tmpl))
@@ -95,7 +98,6 @@ int main()
     {
       _exit(3);
     }
-    s.set("k3", std::string("v3"));
 
     std::signal(SIGXFSZ, SIG_IGN);
     struct rlimit rl;
@@ -108,6 +110,7 @@ int main()
     {
       _exit(4);
     }
+    s.set("k3", std::string("v3"));
     s.flush(); // in-place: truncates state.json, then the write fails
     _exit(0);  // "crash": no destructor, no second flush
   }
